@@ -3,3 +3,6 @@ import RedisVerif.Model.Crdt
 import RedisVerif.Lemmas.NMap
 import RedisVerif.Lemmas.Crdt
 import RedisVerif.Props.C07
+import RedisVerif.Model.Replica
+import RedisVerif.Lemmas.Replica
+import RedisVerif.Props.C08
